@@ -221,7 +221,9 @@ def judge_c09(spec, gs, tbs, inputs, diags, dumps, maps, tdiffs, byk, jobs, info
     crash_check('C09', gs, jobs, byk, info, out, 'site:parse@crash')
     for gi, g in enumerate(gs):
         C['grammars'] += 1
-        if g.has_error() or not parseable(gi, gs, tbs, diags, tdiffs, lr1_only=True): C['grammars_skipped'] += 1; continue
+        # the messages do not depend on how the diagnostics print the table: judge every grammar that is LR(1) for the reference and
+        # shows no conflict line, even if its printed table differs from the reference (a wrong table also yields wrong reports)
+        if g.has_error() or not parseable(gi, gs, tbs, diags, tdiffs, need_match=False, lr1_only=True): C['grammars_skipped'] += 1; continue
         tb = tbs[gi]
         for idx, data in enumerate(inputs[gi]):
             ex = None
